@@ -42,6 +42,7 @@ type c01Inst struct {
 	Pick   []interface{} `json:"pick"`
 	Hdr    string        `json:"hdr"`
 	Wrap   string        `json:"wrap"`
+	Ord    []string      `json:"ord"`
 	Bytes  []int         `json:"bytes"`
 	Expect []int         `json:"expect"`
 	Mask   []int         `json:"mask"`
@@ -327,6 +328,9 @@ func c01Replay(args []string) error {
 			return err
 		}
 		id := fmt.Sprintf("%s/v%d/f%x/c%d/%v/%s/%s", in.Layout, in.Ver, in.Flags, in.Cnt, in.Pick, in.Hdr, in.Wrap)
+		if len(in.Ord) > 0 {
+			id += "=" + strings.Join(in.Ord, "+")
+		}
 		// the committed list and the spec's reserved fields must describe the same bits
 		if dm := dc.mask(toBytes(in.Expect)); !dcVariable[in.Type] && !dcVariable[in.Layout] {
 			for k := range dm {
